@@ -731,4 +731,79 @@ theorem src_quarter_turn_3d_coord (rnd : Rounding) (csS csD : CS3) (h0 : csS.h0 
 
 end anysystems
 
+/-! ### round 4: `AffineTransformation.fit` — preconditioning and fold-back around the optimiser -/
+
+section fitfold
+variable {F : Type}
+
+/-- FOLD-BACK: if the inner search returns (t', σ, R) for the source points SHIFTED by p, then the folded parameters
+(t' + σ·R·p, σ, R) map every ORIGINAL source point to where the inner map sends its shifted copy — for any matrix R. -/
+theorem fit_fold_back_correct [CommRing F] [Div F] (t' p x : V2 F) (σ : F) (R Rinv : M2 F) :
+    (⟨foldBack2 t' σ R p, σ, R, Rinv⟩ : Affine2 F).call x = (⟨t', σ, R, Rinv⟩ : Affine2 F).call (V2.add x p) := by
+  ext <;> simp only [Affine2.call, foldBack2, V2.add, V2.smul, M2.mulVec] <;> ring
+
+theorem fit_fold_back_correct_3d [CommRing F] [Div F] (t' p x : V3 F) (σ : F) (R Rinv : M3 F) :
+    (⟨foldBack3 t' σ R p, σ, R, Rinv⟩ : Affine3 F).call x = (⟨t', σ, R, Rinv⟩ : Affine3 F).call (V3.add x p) := by
+  ext <;> simp only [Affine3.call, foldBack3, V3.add, V3.smul, M3.mulVec] <;> ring
+
+/-- hence the objective of the folded map on the original pairs equals the objective the search minimised on the shifted
+pairs: what the optimiser achieved is what the user gets. -/
+theorem fit_objective_preserved [CommRing F] [Div F] (t' p : V2 F) (σ : F) (R Rinv : M2 F) (pairs : List (V2 F × V2 F)) :
+    fitObjective2 ⟨foldBack2 t' σ R p, σ, R, Rinv⟩ pairs
+      = fitObjective2 ⟨t', σ, R, Rinv⟩ (pairs.map fun q => (V2.add q.1 p, q.2)) := by
+  induction pairs with
+  | nil => rfl
+  | cons q rest ih =>
+    obtain ⟨s, d⟩ := q
+    simp only [fitObjective2, List.map_cons, ih, fit_fold_back_correct]
+
+/-- the model of `fit` with the optimiser as a parameter returns exactly that folded map. -/
+theorem fit2_is_folded [CommRing F] [Div F] (n : F) (opt : List (V2 F × V2 F) → V2 F × F × F × F) (src dst : List (V2 F))
+    (x : V2 F) :
+    let p := precond2 n src dst
+    let r := opt ((src.map fun y => V2.add y p).zip dst)
+    (fit2 true n opt src dst).call x = (Affine2.mk' r.1 r.2.1 r.2.2.1 r.2.2.2).call (V2.add x p) := by
+  intro p r
+  simp only [fit2, if_true, Affine2.mk']
+  exact fit_fold_back_correct _ _ _ _ _ _
+
+theorem sumV2_shift [Field F] (k : V2 F) (l : List (V2 F)) :
+    sumV2 (l.map fun x => V2.add x k) = V2.add (sumV2 l) (V2.smul (l.length : F) k) := by
+  induction l with
+  | nil => ext <;> simp [sumV2, V2.add, V2.smul]
+  | cons v vs ih =>
+    simp only [List.map_cons, sumV2, ih, List.length_cons]
+    ext <;> simp only [V2.add, V2.smul] <;> push_cast <;> ring
+
+/-- the centre-of-mass preconditioning is EXACT for pure translations: if every destination point is its source point
+plus k, the preconditioning shift is k, the shifted sources ARE the destinations, and the identity parameters the search
+starts from already have objective zero. -/
+theorem precondition_exact_for_translation [Field F] [CharZero F] (k : V2 F) (src : List (V2 F)) (hne : src ≠ []) :
+    precond2 (src.length : F) src (src.map fun x => V2.add x k) = k ∧
+    fitObjective2 (Affine2.mk' ⟨0, 0⟩ 1 1 0)
+      ((src.map fun x => V2.add x (precond2 (src.length : F) src (src.map fun x => V2.add x k))).zip
+        (src.map fun x => V2.add x k)) = 0 := by
+  have hn : (src.length : F) ≠ 0 := by
+    have : src.length ≠ 0 := by simpa using hne
+    exact_mod_cast this
+  have hp : precond2 (src.length : F) src (src.map fun x => V2.add x k) = k := by
+    simp only [precond2, meanV2, sumV2_shift]
+    ext <;> simp only [V2.sub, V2.add, V2.smul] <;> field_simp <;> ring
+  refine ⟨hp, ?_⟩
+  rw [hp]
+  have : ∀ l : List (V2 F), fitObjective2 (Affine2.mk' ⟨0, 0⟩ 1 1 0) (l.zip l) = 0 := by
+    intro l
+    induction l with
+    | nil => rfl
+    | cons v vs ih =>
+      rw [List.zip_cons_cons, fitObjective2, ih]
+      simp only [Affine2.call, Affine2.mk', rot2, M2.mulVec, V2.add, V2.smul, V2.sub, V2.dot]
+      ring
+  exact this _
+
+example : (fit2 true (2 : Rat) (fun _ => (⟨1/2, 0⟩, 2, 0, 1)) [⟨0, 0⟩, ⟨2, 0⟩] [⟨1, 3⟩, ⟨3, 5⟩]).call ⟨1, 1⟩
+    = (Affine2.mk' (⟨1/2, 0⟩ : V2 Rat) 2 0 1).call ⟨2, 5⟩ := by decide +kernel
+
+end fitfold
+
 end Darsia.C09
